@@ -1,4 +1,8 @@
 import EdpVerif.Lemmas.SerdeWire
+import EdpVerif.Lemmas.SerdeBytes
+import EdpVerif.Lemmas.SerdeInt
+import EdpVerif.Lemmas.SerdeTables
+import EdpVerif.Lemmas.SerdeNaN
 /-
 C15 — serde round trip returns the original Rust value, also across the wire.
 Property theorems only; helper lemmas live in EdpVerif/Lemmas/Serde*.lean.
@@ -93,5 +97,128 @@ theorem C15_wire_char (c : Nat) (h : isScalar c = true) : de .char (wireT (ser (
   simp [ser, wireT, de, deChar, utf8_one c h]
 
 example : isScalar 1114111 = true := by decide
+
+/-- `Option<()>` (which the property allows to be excluded) is carried too: `()` is the atom `nil`, `None` is `undefined`. -/
+example : ∀ v, hasTy v (.option .unit) = true → de (.option .unit) (wireT (ser v)) = .ok v :=
+  fun v h => C15_wire _ v h (by cases v <;> simp [hasTy] at h <;> first | decide | (rename_i x; cases x <;> simp [hasTy] at h; decide))
+
+/-- The one exclusion among floats: an `f32` NaN (every payload, both signs) comes back as an `f32` NaN of the same sign —
+a value that `==` cannot tell from the original (nor from itself); only the payload bits may differ (the signalling bit is
+set by `as f64`).  Every other `f32` and every `f64` bit pattern, NaNs included, is covered by `C15_mem` / `C15_wire`. -/
+theorem C15_f32_nan_stays_nan (b : Nat) (h : b < 2 ^ 32) (hn : f32IsNaN b = true) :
+    ∃ b', de .f32 (wireT (ser (.f32 b))) = .ok (.f32 b') ∧ de .f32 (ser (.f32 b)) = .ok (.f32 b') ∧
+      f32IsNaN b' = true ∧ b' / 2 ^ 31 = b / 2 ^ 31 := by
+  refine ⟨f64to32 (f32to64 b), by simp [ser, wireT, de], by simp [ser, de], ?_⟩
+  exact SerdeNaN.f32_nan_stays_nan b h hn
+
+example : f32IsNaN 2139095041 = true ∧ de .f32 (ser (.f32 2139095041)) = .ok (.f32 2143289345) := by
+  refine ⟨by decide, by rfl⟩
+
+/-! ### through the bytes
+
+The theorems above are about the closed form `wireT`; these are about the encoder and decoder models themselves
+(`toBytes = encode ∘ ser`, `fromBytes ty = de ty ∘ decode`), by the codec round trip of Lemmas/RoundTrip.lean (`dec_enc`).
+`decodable` (Spec/Serde.lean) states the decoder's own resource limits (lists/tuples ≤ 10^7, maps ≤ 10^6, binaries ≤ 10^8, atom
+names valid UTF-8 of at most 65535 bytes, at most 256 levels of nested containers). -/
+
+/-- Serialising to bytes succeeds and deserialising from those bytes gives back the value — for every value of every
+distinguishable type whose term is within the decoder's limits, and every behaviour `x` of the decoder's external calls. -/
+theorem C15_bytes_roundtrip (ty : Ty) (v : Val) (ht : hasTy v ty = true) (hd : distinguishableW v ty = true)
+    (hdc : decodable (ser v) = true) :
+    ∃ bs, toBytes v = .ok bs ∧ ∀ x : Ext, fromBytes x ty bs = .ok v := by
+  simp only [decodable, Bool.and_eq_true, decide_eq_true_eq] at hdc
+  obtain ⟨hf, hn⟩ := hdc
+  have hdep : dep (ser v) ≤ MAX_NESTING_DEPTH := by rw [SerdeBytes.dep_eq _ hf]; exact hn
+  obtain ⟨bs, he⟩ := SerdeBytes.encode_ok (ser v) hf
+  refine ⟨bs, he, fun x => ?_⟩
+  simp only [fromBytes, SerdeBytes.decode_encode x (ser v) bs hf hdep he]
+  exact C15_wire ty v ht hd
+
+example : hasTy (.tuple [.int .i64 (-9223372036854775808), .some (.char 128512), .seq []]) (.tuple [.int .i64, .option .char, .seq .f32]) = true ∧
+    distinguishableW (.tuple [.int .i64 (-9223372036854775808), .some (.char 128512), .seq []]) (.tuple [.int .i64, .option .char, .seq .f32]) = true ∧
+    decodable (ser (.tuple [.int .i64 (-9223372036854775808), .some (.char 128512), .seq []])) = true := by decide
+
+/-- Whatever bytes `to_bytes` returns — also for a value beyond the decoder's limits — are read back as the value once the
+decoder accepts the term's size; and `to_bytes` itself fails only for a size the format's length fields cannot hold
+(`over e`, Lemmas/EncErr.lean: an atom name above 65535 bytes, a binary or a list/tuple/map above `u32::MAX`). -/
+theorem C15_to_bytes_error_only_for_size (v : Val) (e : EncErr) (h : toBytes v = .error e) : over e (ser v) = true := by
+  unfold toBytes encode at h
+  cases h1 : enc [] (ser v) with
+  | ok b => simp [h1] at h
+  | error e' => simp [h1] at h; subst h; exact enc_err [] _ e' h1
+
+example : ∃ n : Bytes, toBytes (.unitStruct n) = .error .atomTooLarge := by
+  refine ⟨List.replicate 65536 97, ?_⟩
+  have h : (List.replicate 65536 (97 : UInt8)).length = 65536 := List.length_replicate
+  generalize List.replicate 65536 (97 : UInt8) = a at h
+  simp [toBytes, ser, encode, enc, encAtom, indexOf?, u16max, h]
+
+/-! ### integers are read exactly or not at all -/
+
+/-- `from_term::<iN/uN>` on ANY term: the result is `ok` exactly when the term is an integer (in either representation, with
+whatever padding of the digits) whose numeric value `intVal t` lies in the range of the requested type, and then it is that
+value — never a truncated, wrapped or sign-changed one. -/
+theorem C15_int_read_exactly (k : IntTy) (t : Term) (v : Val) :
+    de (.int k) t = .ok v ↔ ∃ i, intVal t = some i ∧ k.inRange i = true ∧ v = .int k i := by
+  simp only [de]
+  exact SerdeInt.deInt_exact k t v
+
+example : de (.int .u8) (.big false [44, 1]) = .error .err ∧ de (.int .u8) (.int 300) = .error .err ∧
+    de (.int .i64) (.big true [0, 0, 0, 0, 0, 0, 0, 128, 0, 0]) = .ok (.int .i64 (-9223372036854775808)) := by
+  refine ⟨by rfl, by rfl, by rfl⟩
+
+/-- In particular an integer outside the requested type's range is an error. -/
+theorem C15_int_out_of_range_is_error (k : IntTy) (t : Term) (i : Int) (hi : intVal t = some i) (hr : k.inRange i = false) :
+    de (.int k) t = .error .err := by
+  cases h : de (.int k) t with
+  | error e => cases e; rfl
+  | ok v =>
+    obtain ⟨j, hj, hrj, _⟩ := (C15_int_read_exactly k t v).mp h
+    rw [hi] at hj; cases hj; rw [hr] at hrj; cases hrj
+
+example : intVal (.big false [0, 0, 0, 0, 0, 0, 0, 0, 1]) = some 18446744073709551616 ∧ IntTy.u64.inRange 18446744073709551616 = false := by
+  decide
+
+/-- 128-bit integers are not carried: both directions report an error, for every value and every term (neither ser.rs nor
+de.rs overrides the 128-bit methods — `Gen.C15_WIDE_OVERRIDDEN`, re-extracted from the source on every run). -/
+theorem C15_128_bit_is_an_error (w : WideTy) (i : Int) (t : Term) : serWide w i = .error .err ∧ deWide w t = .error .err := by
+  constructor <;> rfl
+
+example : Gen.C15_WIDE_OVERRIDDEN = [] := by decide
+
+/-! ### the type-mapping tables of the source are the model's, and are consistent
+
+`Gen.C15_SER_TOP` / `C15_SER_PARTS` / `C15_DE_ARMS` are extracted from ser.rs and de.rs by tools/gen_misc.py on every run;
+`modelTop` / `modelParts` / `modelAccepts` (Lemmas/SerdeTables.lean) are computed from the model by evaluating `ser` / `de` on
+probe values of every method.  Changing an arm in the source (or in the model) without the other fails these. -/
+
+/-- which constructor every `serialize_*` method and every compound serializer builds -/
+theorem C15_ser_arms_are_the_sources :
+    Gen.C15_SER_TOP.all (fun r => SerdeTables.sameSet (SerdeTables.modelTop r.1) r.2) = true ∧
+    Gen.C15_SER_PARTS.all (fun r => SerdeTables.sameSet (SerdeTables.modelParts r.1) r.2) = true ∧
+    Gen.C15_SER_TOP.map (·.1) = SerdeTables.serProbes.map (·.1) ∧
+    Gen.C15_SER_TRANSPARENT = ["some", "newtype_struct"] ∧ Gen.C15_STRUCT_FIELD_KEY_CTOR = "Binary" ∧
+    Gen.C15_U64_SPLIT_AT_I64_MAX = true := by decide
+
+/-- which constructors every `deserialize_*` method accepts -/
+theorem C15_de_arms_are_the_sources :
+    Gen.C15_DE_ARMS.all (fun r => SerdeTables.sameSet (SerdeTables.modelAccepts r.1) r.2) = true ∧
+    Gen.C15_DE_ARMS.map (·.1) = SerdeTables.deAcc.map (·.1) ∧ maxBigDigits = 8 := by decide
+
+/-- ON THE SOURCE TABLES ALONE: every constructor a `serialize_*` builds is matched by the `deserialize_*` that reads it back —
+as it is (in memory) and in every form `decode ∘ encode` can give it (`Integer` ↦ `Integer`/`BigInt`, `String` ↦ `Binary`,
+`List` ↦ `List`/`Nil`).  (The two former C15 findings were exactly violations of this.) -/
+theorem C15_every_written_constructor_is_read :
+    SerdeTables.allAccepted Gen.C15_SER_TOP Gen.C15_DE_ARMS = true := by decide
+
+example : SerdeTables.allAccepted Gen.C15_SER_TOP
+    (Gen.C15_DE_ARMS.map fun r => if r.1 = "char" then (r.1, ["String"]) else r) = false := by decide
+
+/-- writer and reader use the same atom names; `()` and `None` are different atoms; the Elixir struct key and prefix -/
+theorem C15_atom_names_agree :
+    Gen.C15_ATOM_TRUE = Gen.C15_ATOM_DE_TRUE ∧ Gen.C15_ATOM_FALSE = Gen.C15_ATOM_DE_FALSE ∧
+    Gen.C15_ATOM_UNIT = Gen.C15_ATOM_DE_UNIT ∧ Gen.C15_ATOM_NONE = Gen.C15_ATOM_DE_NONE ∧
+    sTrue ≠ sFalse ∧ sNil ≠ sUndefined ∧ sTrue ≠ sUndefined ∧ sFalse ≠ sUndefined ∧
+    sStructKey = [95, 95, 115, 116, 114, 117, 99, 116, 95, 95] ∧ sElixirDot = [69, 108, 105, 120, 105, 114, 46] := by decide
 
 end Edp.Props.C15
